@@ -59,6 +59,33 @@ func vStartSingleNode(t testing.TB, id string, port int, tweak func(*Config)) *S
 
 var vStreamSeq int64
 
+// vCreateStream is CreateStream for FIXTURES: a Raft apply that times out on a loaded machine (it may still commit, see
+// DESIGN 9.4 timeoutFuture) is not the subject of any check - the call is repeated, and "already exists" after such a
+// time-out means the first attempt went through.
+func vCreateStream(s *Server, req *client.CreateStreamRequest) error {
+	var err error
+	timedOut := false
+	for try := 0; try < 5; try++ {
+		ctx, cancel := context.WithTimeout(context.Background(), 15*time.Second)
+		_, err = s.api.CreateStream(ctx, req)
+		cancel()
+		if err == nil {
+			return nil
+		}
+		msg := err.Error()
+		if timedOut && strings.Contains(msg, "already exists") {
+			return nil
+		}
+		if strings.Contains(msg, "raft operation timed out") || strings.Contains(msg, "context deadline exceeded") {
+			timedOut = true
+			time.Sleep(200 * time.Millisecond)
+			continue
+		}
+		return err
+	}
+	return err
+}
+
 func vParseBytesS(s string) []byte {
 	switch {
 	case s == "-":
@@ -270,9 +297,7 @@ func (v *vPartImpl) exec(line string, hint vHint) (out string) {
 				req.RetentionMaxMessages = &client.NullableInt64{Value: n}
 			}
 		}
-		ctx, cancel := context.WithTimeout(context.Background(), 10*time.Second)
-		defer cancel()
-		if _, err := v.s.api.CreateStream(ctx, req); err != nil {
+		if err := vCreateStream(v.s, req); err != nil {
 			v.t.Fatalf("create stream: %v", err)
 		}
 		deadline := time.Now().Add(5 * time.Second)
